@@ -18,6 +18,8 @@ for pf in sys.argv[1:]:
     fired = {}
     for i in range(1, 17):
         pid = "C%02d" % i
+        if os.environ.get("SWEEP_CHECKS") and pid not in os.environ["SWEEP_CHECKS"].split():
+            continue
         rr = subprocess.run([os.path.join(ROOT, "check"), pid], cwd=ROOT, env=dict(os.environ, VERIF_REPO=SCR), capture_output=True, text=True)
         if rr.returncode == 1:
             fired[pid] = [k[:260] for k in re.findall(r"^\s+(?:FINDING|ANCHOR-MISSING|FLOOR) (.*)$", rr.stdout, re.M)][:4]
